@@ -78,16 +78,23 @@ pub fn guarded<R>(f: impl FnOnce() -> R) -> Result<R, String> {
 pub fn par_cases(ctx: &Ctx, prop: &str, stream: &str, n: usize, f: impl Fn(usize, String) -> Case + Sync) -> Vec<Case> {
     let threads = ctx.threads.max(1).min(n.max(1));
     let mut out: Vec<Vec<(usize, Case)>> = vec![];
+    // cases are handed out dynamically (their cost varies by orders of magnitude with the queue size);
+    // the result does not depend on the schedule: case `i` is a function of `i` and the seed only
+    let next = std::sync::atomic::AtomicUsize::new(0);
     std::thread::scope(|s| {
         let mut hs = vec![];
-        for t in 0..threads {
+        for _t in 0..threads {
             let f = &f;
+            let next = &next;
             let h = std::thread::Builder::new()
                 .stack_size(256 << 20)
                 .spawn_scoped(s, move || {
                     let mut v = vec![];
-                    let mut i = t;
-                    while i < n {
+                    loop {
+                        let i = next.fetch_add(1, std::sync::atomic::Ordering::Relaxed);
+                        if i >= n {
+                            break;
+                        }
                         let id = ctx.case_id(prop, stream, i);
                         if ctx.wants(&id) {
                             let idc = id.clone();
@@ -101,7 +108,6 @@ pub fn par_cases(ctx: &Ctx, prop: &str, stream: &str, n: usize, f: impl Fn(usize
                             };
                             v.push((i, c));
                         }
-                        i += threads;
                     }
                     v
                 })
